@@ -4,7 +4,7 @@
 From Coq Require Import NArith ZArith List Bool Arith Lia.
 From FQE Require Import Bits.
 Import ListNotations.
-Open Scope Z_scope.
+Local Open Scope Z_scope.
 
 Definition u64 (x : Z) : Z := x mod 2 ^ 64.
 Definition zpopcount (z : Z) : Z := Z.of_nat (popcount (Z.to_N z)).
